@@ -294,23 +294,33 @@ def compileBody (db : DB) : Body → Except Err (DB × Nat)
 /-- Log of the clause/fact nodes an operation added: (signature, node id), in order of addition. -/
 abbrev Log := List (Sig × Nat)
 
-/-- One head of an annotated disjunction (clausedb.py:463-498). -/
-def addChoice (db : DB) (bodySig : Sig) (clauseBody : Ref) (h : Sig) : Except Err (DB × Nat) :=
-  let (db1, choiceNode) := appendNode db (.other tagChoice [])               -- :472 _add_choice_node
+/-- One head of an annotated disjunction (clausedb.py:463-498). The choice node carries the *group id* of its
+    annotated disjunction: the engine identifies a ground choice by (group, arguments, choice index), so two
+    disjunctions must never share a group id. -/
+def addChoice (db : DB) (group : Nat) (bodySig : Sig) (clauseBody : Ref) (h : Sig) : Except Err (DB × Nat) :=
+  let (db1, choiceNode) := appendNode db (.other tagChoice [group])          -- :472 _add_choice_node
   let (db2, choiceCall) := appendNode db1 (.other tagChoiceCall [choiceNode]) -- :481 raw call node
   let (db3, bodyCall) := appendNode db2 (.call bodySig clauseBody)           -- :491
   let (db4, choiceBody) := appendNode db3 (.other tagConj [bodyCall, choiceCall])  -- :501
   addClauseNode db4 h choiceBody                                             -- :502
 
-def addChoices (db : DB) (bodySig : Sig) (clauseBody : Ref) : List Sig → Except Err (DB × Log)
+def addChoices (db : DB) (group : Nat) (bodySig : Sig) (clauseBody : Ref) : List Sig → Except Err (DB × Log)
   | [] => .ok (db, [])
   | h :: hs =>
-    match addChoice db bodySig clauseBody h with
+    match addChoice db group bodySig clauseBody h with
     | .error e => .error e
     | .ok (db1, c) =>
-      match addChoices db1 bodySig clauseBody hs with
+      match addChoices db1 group bodySig clauseBody hs with
       | .error e => .error e
       | .ok (db2, log) => .ok (db2, (h, c) :: log)
+
+/-- Group id of an annotated disjunction compiled into `db`: `len(self)`, the number of nodes of the database *and of
+    its ancestors* (repo_patches/C29_ad_group_id.diff), taken before anything of the statement is compiled. -/
+def adGroup (db : DB) : Nat := db.len
+
+/-- The group id as written before the repair (clausedb.py:437 at 9130489): `len(self.__nodes)`, which restarts at 0
+    in every extension. -/
+def adGroupV0 (db : DB) : Nat := db.layer.nodes.length
 
 /-- Statements a program (or an extension) adds. -/
 inductive Op where
@@ -343,7 +353,7 @@ def applyOp (db : DB) : Op → Except Err (DB × Log)
         match addHead db2 bodySig true with                                -- :459
         | .error e => .error e
         | .ok (db3, clauseBody) =>
-          match addChoices db3 bodySig clauseBody heads with
+          match addChoices db3 (adGroup db) bodySig clauseBody heads with                 -- group: :437
           | .error e => .error e
           | .ok (db4, log) => .ok (db4, (bodySig, c) :: log)
   | .call b =>
